@@ -7,12 +7,14 @@
 package c05
 
 import (
+	"context"
 	"fmt"
 	"strings"
 	"testing"
 
 	"github.com/luthersystems/elps/lisp"
 	"github.com/luthersystems/elps/parser"
+	"github.com/luthersystems/elps/parser/token"
 	"github.com/luthersystems/elps/verifharness/vcommon"
 	"pgregory.net/rapid"
 )
@@ -59,7 +61,7 @@ const battery = `
 var cfg = vcommon.Cfg{NoStdlib: true, MaxPhysical: 250, MaxNesting: 600, MaxTailIter: 2000, MaxMacroDepth: 50, MaxAlloc: 100000}
 
 type Action struct {
-	Entry  string `json:"entry"` // load | eval | evalsexpr | funcall | specialop | macrocall
+	Entry  string `json:"entry"` // load | eval | evalsexpr | funcall | specialop | macrocall | load-ctx | eval-ctx | funcall-ctx | load-empty
 	PreVar int    `json:"pre_var"`
 	PreVal int    `json:"pre_val"`
 	Fail   string `json:"fail"`
@@ -75,12 +77,12 @@ type History struct {
 
 var failKinds = []string{"none", "none", "error", "error-in-handler", "error-in-handler-handler", "rethrow-in-handler", "rethrow-outside",
 	"unbound", "arity", "phys", "nesting", "tail", "macro", "host-panic", "host-panic-in-handler", "host-panic-in-macro", "load-fail",
-	"ignore-then-fail", "set-unbound", "bad-call-head", "go-handler-panics", "cross-package-early-fail", "cross-package-early-fail", "cross-package-macro-fail"}
+	"ignore-then-fail", "set-unbound", "bad-call-head", "nested-empty-load", "go-handler-panics", "cross-package-early-fail", "cross-package-early-fail", "cross-package-macro-fail"}
 
 func genHistory() *rapid.Generator[History] {
 	act := rapid.Custom(func(t *rapid.T) Action {
 		a := Action{
-			Entry:  rapid.SampledFrom([]string{"load", "load", "load", "eval", "evalsexpr", "funcall", "specialop", "macrocall"}).Draw(t, "entry"),
+			Entry:  rapid.SampledFrom([]string{"load", "load", "load", "eval", "evalsexpr", "funcall", "specialop", "macrocall", "load-ctx", "eval-ctx", "funcall-ctx", "load-empty"}).Draw(t, "entry"),
 			PreVar: rapid.IntRange(0, 3).Draw(t, "prevar"),
 			PreVal: rapid.IntRange(0, 99).Draw(t, "preval"),
 			Fail:   rapid.SampledFrom(failKinds).Draw(t, "fail"),
@@ -132,6 +134,8 @@ func failForm(kind string) string {
 		return "(pmac)"
 	case "load-fail":
 		return "(load-string \"(in-package 'other2) (gset 'v3 5) (error 'nested 3)\")"
+	case "nested-empty-load":
+		return "(progn (load-string \"\") (load-string \" ; nothing here\\n\") 0)"
 	case "ignore-then-fail":
 		return "(progn (ignore-errors (error 'a)) (error 'b))"
 	case "set-unbound":
@@ -179,7 +183,32 @@ func parseOne(src string) (*lisp.LVal, error) {
 func perform(rt *vcommon.Rt, a Action) (*lisp.LVal, string) {
 	env := rt.Env
 	body := a.body()
+	// the *Context entry points get a context of their own that the host
+	// cancels as soon as the call has returned (the usual `defer cancel()`)
+	ctx, cancel := context.WithCancel(context.Background())
+	defer cancel()
 	switch a.Entry {
+	case "load-empty":
+		src := "  ; nothing to evaluate\n"
+		if a.PreVal%2 == 0 {
+			src = ""
+		}
+		return env.LoadString("action.lisp", src), "LoadString (no forms): " + fmt.Sprintf("%q", src)
+	case "load-ctx":
+		return env.LoadStringContext(ctx, "action.lisp", body), "LoadStringContext: " + body
+	case "eval-ctx":
+		e, err := parseOne("(progn " + body + ")")
+		if err != nil {
+			panic(err)
+		}
+		return env.EvalContext(ctx, e), "EvalContext: (progn " + body + ")"
+	case "funcall-ctx":
+		def := "(defun act () " + body + ")"
+		if v := env.LoadString("def.lisp", def); v.Type == lisp.LError {
+			return v, def
+		}
+		fn := env.GetGlobal(lisp.Symbol("act"))
+		return env.FunCallContext(ctx, fn, lisp.SExpr(nil)), "FunCallContext act: " + def
 	case "load":
 		src := body
 		if a.InPkg {
@@ -228,6 +257,63 @@ func perform(rt *vcommon.Rt, a Action) (*lisp.LVal, string) {
 	}
 }
 
+// describe renders everything the host can observe of one action's outcome.
+//
+// hostLoc is the location the root environment held before the call.  The
+// entry points that take no source expression (FunCall*, SpecialOpCall,
+// MacroCall) have no call expression of their own, so their outermost frame and
+// an error raised before any form is evaluated carry that location; it is
+// masked for them (it belongs to no property), and only for them.
+func describe(rt *vcommon.Rt, a Action, hostLoc string, res *lisp.LVal, tr []vcommon.Event) string {
+	switch a.Entry {
+	case "funcall", "funcall-ctx", "specialop", "macrocall":
+		return describe1(rt, a, true, hostLoc, res, tr)
+	}
+	return describe1(rt, a, false, "", res, tr)
+}
+
+func locString(l *token.Location) string {
+	if l == nil {
+		return ""
+	}
+	return fmt.Sprintf("%s:%d:%d", l.File, l.Line, l.Col)
+}
+
+func describe1(rt *vcommon.Rt, a Action, hostEntry bool, hostLoc string, res *lisp.LVal, tr []vcommon.Event) string {
+	var b strings.Builder
+	if res == nil {
+		return "#nil"
+	}
+	if res.Type != lisp.LError {
+		b.WriteString("VALUE " + vcommon.Canon(res))
+	} else {
+		fmt.Fprintf(&b, "ERROR<%s> %s", res.Str, (*lisp.ErrorVal)(res).ErrorMessage())
+		if loc, ok := res.Source(); ok && !(hostEntry && locString(&loc) == hostLoc) {
+			fmt.Fprintf(&b, " @%s", locString(&loc))
+		} else if hostEntry {
+			b.WriteString(" @<host>")
+		} else {
+			b.WriteString(" @nowhere")
+		}
+		if st := res.CallStack(); st != nil {
+			for i := len(st.Frames) - 1; i >= 0; i-- {
+				f := st.Frames[i]
+				fmt.Fprintf(&b, " [%s:%s", f.Package, f.Name)
+				if f.Source != nil && !(hostEntry && i == 0) {
+					fmt.Fprintf(&b, " %s", locString(f.Source))
+				}
+				b.WriteString("]")
+			}
+		}
+	}
+	steps := rt.Env.Runtime.Steps()
+	if a.Entry == "load-empty" {
+		steps = 0 // nothing was evaluated: the counter still shows the evaluation before
+	}
+	fmt.Fprintf(&b, " | steps=%d | effects=%q | stderr=%q", steps, vcommon.TraceString(tr), rt.Stderr.String())
+	return b.String()
+}
+
 func newRT() *vcommon.Rt {
 	rt := vcommon.NewRuntime(cfg)
 	if o := rt.Load(prelude); o.IsErr {
@@ -241,7 +327,7 @@ func newRT() *vcommon.Rt {
 func runBattery(rt *vcommon.Rt) string {
 	rt.Apply(vcommon.Cfg{MaxSteps: 1 << 40})
 	rt.Stderr.Reset()
-	o := rt.Load(battery)
+	o := rt.Observe(rt.Env.LoadString("battery.lisp", battery))
 	s := ""
 	if o.IsErr {
 		s = "ERR<" + o.Cond + "> " + o.Msg
@@ -269,12 +355,35 @@ func checkHistory(h History, c *vcommon.Ctx) *vcommon.Failure {
 		pkgBefore := r.Package.Name
 		ctxBefore := env.Context()
 		mark := len(rt.Trace)
+		// the same action in a fresh runtime that received only the completed
+		// mutations: its own outcome (value or condition, message, location,
+		// stack trace, effects, steps) is what a clean runtime must give
+		twinA := newRT()
+		for _, d := range defs {
+			twinA.Env.LoadString("def.lisp", d)
+		}
+		{
+			upkg := twinA.Env.Runtime.Registry.Package(lisp.DefaultUserPackage)
+			for _, m := range done {
+				var n int
+				fmt.Sscanf(m.val, "%d", &n)
+				upkg.Put(lisp.Symbol(m.name), lisp.Int(n))
+			}
+		}
+		twinA.Trace = nil
 		if a.Budget > 0 {
 			rt.Apply(vcommon.Cfg{MaxSteps: int64(a.Budget)})
+			twinA.Apply(vcommon.Cfg{MaxSteps: int64(a.Budget)})
 		}
+		rt.Stderr.Reset()
+		twinA.Stderr.Reset()
+		hostLoc, hostLocT := locString(env.Source()), locString(twinA.Env.Source())
 		res, desc := perform(rt, a)
+		resT, _ := perform(twinA, a)
+		gotA := describe(rt, a, hostLoc, res, rt.Trace[mark:])
+		wantA := describe(twinA, a, hostLocT, resT, twinA.Trace)
 		rt.Apply(vcommon.Cfg{MaxSteps: 0})
-		if a.Entry == "funcall" {
+		if a.Entry == "funcall" || a.Entry == "funcall-ctx" {
 			defs = append(defs, "(defun act () "+a.body()+")")
 		}
 		fmt.Fprintf(&log, "#%d %s budget=%d\n", i, desc, a.Budget)
@@ -302,6 +411,9 @@ func checkHistory(h History, c *vcommon.Ctx) *vcommon.Failure {
 				parts := strings.SplitN(e.Payload, " ", 2)
 				done = append(done, mut{parts[0], parts[1]})
 			}
+		}
+		if gotA != wantA {
+			return vcommon.Failf("action-differs/"+a.Entry, "action #%d behaves differently in the long-lived runtime than in a fresh runtime that received only the completed mutations\nlong-lived: %s\nfresh:      %s\n%s", i, gotA, wantA, log.String())
 		}
 		// ---- cleanliness invariants ----
 		if n := len(r.Stack.Frames); n != 0 {
